@@ -74,7 +74,7 @@ class Gen:
         r = self.r
         names = list(cols)
         k = r.random()
-        if k < 0.2:
+        if k < 0.17:
             n = r.randint(1, min(3, len(names)))
             keep = r.sample(names, n)
             items = [(("col", c), c) for c in keep]
@@ -87,21 +87,21 @@ class Gen:
                     items.append((self.int_e(cols), tgt))
             r.shuffle(items)
             return ("select", items)
-        if k < 0.4:
+        if k < 0.35:
             return ("where", self.bool_e(cols))
-        if k < 0.55:
+        if k < 0.48:
             return self.order_step(cols, total=r.random() < 0.7)
-        if k < 0.65:
+        if k < 0.56:
             return ("limit", r.choice([0, 1, 2, 3, 5, 100]))
-        if k < 0.73:
+        if k < 0.63:
             return ("distinct",)
-        if k < 0.85:
+        if k < 0.74:
             tgt = r.choice(names + ["c", "d"])
             e = self.bool_e(cols, 1) if r.random() < 0.2 else self.int_e(cols)
             return ("withColumn", tgt, e)
-        if k < 0.90:
+        if k < 0.79:
             return ("rename", r.choice(names), r.choice(["c", "d", "e"] + names))
-        if k < 0.94:
+        if k < 0.82:
             return ("drop", r.sample(names, 1) + (["zz"] if r.random() < 0.2 else []))
         return self.wide_step(cols)
 
@@ -448,6 +448,17 @@ def make_programs(ctx):
         m.append(("rename", names[0], "e"))
         if len(names) > 1:
             m.append(("drop", [names[0]]))
+        # the composite / wider operations of the property's list
+        m.append(("toDF", [n + "_" for n in names]))
+        if ints:
+            m.append(("fillna", {ints[0]: 0}))
+            m.append(("replace", [ints[0]], [(1, 7)]))
+            m.append(("unpivot", [c for c in names if c not in ints][:1], ints[:2], "var", "val"))
+            m.append(("agg", [names[-1]] if names[-1] not in ints[:1] else [], [("sum", ints[0], "g0"), ("count_star", "*", "g1")]))
+        m.append(("dropna", "any", None, []))
+        m.append(("dropna", "all", None, names[:2]))
+        m.append(("dropna", "any", 1, names[-2:]))
+        m.append(("dropDup", names[:1]))
         return m
 
     def expand(prefix, cols, depth):
@@ -465,7 +476,7 @@ def make_programs(ctx):
 
     expand([], cols0, 2 if ctx.tier == "quick" else 3)
     n_exh = len(progs)
-    n_rand = 350 if ctx.tier == "quick" else 3000
+    n_rand = 260 if ctx.tier == "quick" else 3000
     maxlen = 6 if ctx.tier == "quick" else 10
     for _ in range(n_rand):
         cols = dict(cols0)
@@ -532,7 +543,8 @@ def run(ctx: core.Ctx):
         proved = ctx.prove(
             [ctx.build + "/gen/C01Facts.v", core.COQ + "/props/C01.v"],
             dep_theories=["Base/Val.v", "Base/Expr.v", "Base/Sort.v", "Sql/Block.v", "Sql/Norm.v",
-                          "Model/Chain.v", "Model/ChainProof.v", "Model/ChainCheck.v"])
+                          "Model/Chain.v", "Model/ChainProof.v", "Model/ChainCheck.v", "Model/ChainExt.v",
+                          "Model/ChainCheckX.v"])
     if not t1_ok:
         # the case files need Gen.C01Facts: fall back to the facts of the pinned source so that the search can run
         ctx.gen("C01Facts", open(core.VERIF + "/translate/c01_facts_pinned.v").read())
@@ -550,12 +562,15 @@ def run(ctx: core.Ctx):
     items, metas = [], []
     hist_len, hist_kind, hist_mode, n_raise = {}, {}, {}, 0
     seen = set()
-    for steps in progs:
+    n_corpus_exh = 9 + n_exh
+    for pi, steps in enumerate(progs):
         (mode, lim), steps = plan_mode(steps)
         for tname, rows in TABLES.items():
             key = (repr(steps), tname)
             if key in seen or not steps:
                 continue
+            if tname == "empty" and 9 <= pi < n_corpus_exh and len(steps) > 1:
+                continue      # bounded-exhaustive pairs run on the two non-empty tables; singles also on the empty one
             seen.add(key)
             exported, impl, exc = "None", "None", None
             try:
@@ -624,6 +639,36 @@ def run(ctx: core.Ctx):
                     "option_map (fun d => nf ics (done d ++ [cur d])) (run_x gen_cfg (deco_of decorator_table) (init_df ics) (xc_ops k)))")
         ctx.broken("T2:tree-vs-model", f"{len(t2_fail)} programs whose exported SQL tree differs from the model's normal form; "
                    f"first: {first['program']}", data=t2_fail[:5])
+    # ---- spec conformance: the Coq spec (spec_xrun) against answers recorded from PySpark 3.5.9
+    import json as _json, os as _os
+    rec_path = _os.path.join(core.VERIF, "oracle", "c01_pyspark.jsonl")
+    n_rec = n_rec_bad = 0
+    if _os.path.exists(rec_path):
+        ritems, rmeta = [], []
+        rec_lines = open(rec_path).read().splitlines()
+        if ctx.tier == "quick":   # a seeded third of the recordings in the quick tier, all of them in the thorough tier
+            rec_lines = [l for i, l in enumerate(rec_lines) if (i + ctx.seed) % 3 == 0]
+        for line in rec_lines:
+            rc = _json.loads(line)
+            steps = [_fix_step(_tup(st)) for st in rc["steps"]]
+            lim = rc["lim"]
+            cm = {"seq": "XSeq", "bag": "XBag", "sub": f"(XSubOf {natlit(lim if isinstance(lim, int) else 0)})",
+                  "dedup": "(XDedup " + listlit([strlit(c) for c in (lim if isinstance(lim, list) else [])]) + ")"}[rc["mode"]]
+            impl = f"(Some ({listlit([strlit(c) for c in rc['cols']])}, {listlit([rel.row_coq(tuple(r)) for r in rc['result']])}))"
+            ritems.append(f"(mkXCase {rel.frame_coq(COLS0, TABLES[rc['table']])} {listlit([step_coq(st) for st in steps])} {cm} None {impl})")
+            rmeta.append(rc)
+        rres = ctx.cases("c01rec", HEADER, ritems, per_file=200, result_ty="str", fn="check")
+        bad = []
+        for rc, r in zip(rmeta, rres):
+            if r is None:
+                continue
+            n_rec += 1
+            if r[2] != "1":
+                n_rec_bad += 1
+                bad.append({"steps": rc["steps"], "table": rc["table"], "mode": rc["mode"], "pyspark": rc["result"], "verdict": r})
+        if bad:
+            ctx.broken("spec-conformance", f"{len(bad)} recorded PySpark results differ from the Coq spec; first: "
+                       f"{bad[0]['steps']} on {bad[0]['table']}", data=bad[:8])
     n_exportable = sum(1 for m in metas if m["exported"])
     ctx.coverage.update({
         "evaluations": len(items), "distinct_nontrivial": n_nontriv,
@@ -633,7 +678,7 @@ def run(ctx: core.Ctx):
         "programs": len(progs), "bounded_exhaustive_programs": n_exh,
         "t2_structurally_equal": n_t2, "t2_exportable": n_exportable, "in_theorem_domain": n_dom,
         "histogram_program_length": hist_len, "histogram_operation_kind": hist_kind, "histogram_compare_mode": hist_mode,
-        "impl_raised": n_raise,
+        "impl_raised": n_raise, "pyspark_recordings_checked": n_rec, "pyspark_recordings_disagree": n_rec_bad,
     })
     ctx.assumptions += [
         "Sql.Block.eval_block is my definition of DuckDB's SELECT evaluation on the emitted fragment (validated by T3 only)",
@@ -646,10 +691,30 @@ def _tup(x):
     return tuple(_tup(y) for y in x) if isinstance(x, list) else x
 
 
+def _fix_step(st):
+    """JSON round-trip turns the list-valued arguments of a step into tuples; restore lists where steps use them"""
+    k = st[0]
+    if k in ("select",):
+        return (k, [(e, n) for e, n in st[1]])
+    if k == "orderBy":
+        return (k, [tuple(x) for x in st[1]])
+    if k in ("drop", "toDF", "dropDup"):
+        return (k, list(st[1]))
+    if k == "replace":
+        return (k, list(st[1]), [tuple(x) for x in st[2]])
+    if k == "dropna":
+        return (k, st[1], st[2], list(st[3]))
+    if k == "unpivot":
+        return (k, list(st[1]), list(st[2]), st[3], st[4])
+    if k == "agg":
+        return (k, list(st[1]), [tuple(x) for x in st[2]])
+    return st
+
+
 def replay(ctx: core.Ctx, rp: dict) -> int:
     """re-run the program of a replay file on /repo's current tree and print what it returns"""
     r = rp.get("replay") or (rp.get("no_longer_checks") or [{}])[0].get("data", [{}])[0]
-    steps = [_tup(s) for s in r["steps_json"]]
+    steps = [_fix_step(_tup(s)) for s in r["steps_json"]]
     from sqlframe.duckdb import DuckDBSession
     import sqlframe.duckdb.functions as F
     df = DuckDBSession().createDataFrame([tuple(x) for x in r["rows"]], SCHEMA)
